@@ -40,6 +40,7 @@ import Proofs.ResolverStaticMapGCheck
 import Proofs.ResolverStaticTreeCheck
 import Proofs.ResolverStaticDisCheck
 import Proofs.ResolverStaticRun
+import Proofs.ResolverStaticRunCheck
 import Proofs.DataflowApprox
 import Proofs.ResolverStaticEvalR
 import Proofs.ResolverStaticExample
@@ -844,22 +845,27 @@ example :
 /-! ### map calls of run-time size -/
 
 /--
-THE REFINEMENT WITH ARRAY-MODE MAP CALLS OF RUN-TIME SIZE (the split sources are references; stages
-and pipelines, nested in each other and in statically sized map calls), next to everything of
+THE REFINEMENT WITH MAP CALLS OF RUN-TIME SIZE AND WITH TYPED-MAP MODE (round 5): map calls whose
+split sources are references (the size is known when the upstream stage has run) and map calls in
+typed-map mode (over typed-map literals or typed-map references), of stages and pipelines, nested in
+each other and in statically sized array-mode map calls, next to everything of
 `resolver_refines_den_disabled_partial`, modulo `dnull ↦ null`.  The static phase resolves the
-outputs of such a call to a `merge` node and the run-time phase enumerates its elements from the
-index sets `ρ.idx` the run recorded.  GIVEN about those: `hidx` (decidable: checked along the forks
-that exist) they are the index sets of the collections the calls were split over, and not empty;
-`hloc` they depend only on the forks of the mapped calls around the call.
+outputs of a run-time sized call to a `merge` node and the run-time phase enumerates its elements
+from the index sets `ρ.idx` the run recorded.  GIVEN about those: `hidx` (decidable: checked along
+the forks that exist) they are the index sets (lengths / key lists) of the collections the calls were
+split over, and not empty; `hloc` they depend only on the forks of the mapped calls around the call.
+Typing (`WellTypedR`): a map call is in array mode (`MappedOkT`) or in typed-map mode (`MappedOkK`:
+the element types have no typed map below — a typed map of typed maps is not a type); later
+bindings see `CALL` at the array / typed-map type of its mode (`callTyS`).
 
-NOT COVERED: typed-map mode; an empty / null source (den: `dnull` and optional instances); a callee
-that returns its split input (the cancelling `merge` of `merge_split_cancel_sound`); a source that
-is an element of a split over a STATICALLY sized call (the compiler then knows the size per fork);
-map calls in lockstep over the merged output of another map call.
+NOT COVERED: an empty / null source (den: `dnull` and optional instances); a callee that returns its
+split input (the cancelling `merge` of `merge_split_cancel_sound`); a source that is an element of a
+split over a STATICALLY sized call (the compiler then knows the size per fork); map calls in lockstep
+over the merged output of another map call; `disabled` on a map call.
 FULL STATEMENT aimed at: the same for every well-typed program.
 -/
 theorem resolver_refines_den_runtime_partial (P : Program) (nm : List String → String) (O : Oracle)
-    (ρ : Store) (hw : WellTypedE P) (hfix : NarrowFix P.table P.nfuel) (hext : StoreExt ρ)
+    (ρ : Store) (hw : WellTypedR P) (hfix : NarrowFix P.table P.nfuel) (hext : StoreExt ρ)
     (hO : OracleClean O)
     (hρ : ∀ n ∈ flattenTList [] (staticProgramT P nm).2, StoreAtNode nm O ρ n)
     (hok : treeOkPList [] (staticProgramT P nm).2 = true)
@@ -873,7 +879,7 @@ index sets `I` of the run (`h6`: the run-time sized map calls have distinct call
 of the model's store are keyed by call id). -/
 theorem resolver_refines_den_runtime_checked (P : Program) (nm : List String → String) (O : Oracle)
     (I : IdxRec)
-    (h1 : wellTypedEB P = true) (h2 : acyclicB P.table = true)
+    (h1 : wellTypedRB P = true) (h2 : acyclicB P.table = true)
     (h3 : treeOkPList [] (staticProgramT P nm).2 = true)
     (h4 : ((flattenTList [] (staticProgramT P nm).2).map fun n => nm n.path).Nodup)
     (h5 : ∀ k v, O k = some v → J.clean v = true)
@@ -884,9 +890,33 @@ theorem resolver_refines_den_runtime_checked (P : Program) (nm : List String →
     eraseRun (den P O)
       = twoPhaseT P nm
           (storeOfRun nm (flattenTList [] (staticProgramT P nm).2) (subROccList [] (staticProgramT P nm).2) O I) :=
-  twoPhaseR_eq_den_F P (wellTypedEB_sound P h1) P.nfuel (narrowFix_of_acyclicB P.table h2) nm O h5 _
+  twoPhaseR_eq_den_F P (wellTypedRB_sound P h1) P.nfuel (narrowFix_of_acyclicB P.table h2) nm O h5 _
     (storeOfRun_ext nm _ _ O I)
     ⟨storeOfRun_ok nm _ _ O I h4, h3, h7, storeOfRun_local nm _ _ O I h6⟩
+
+/-- the decidable condition on the element type of a typed-map mode map call -/
+theorem no_map_below_checked (st : StructTable) (hst : StructsOk st) (n : Nat) (t : Ty)
+    (h : noMapBelowB st n t = true) : NoMapBelow st t :=
+  noMapBelowB_sound st hst n t h
+
+/-- non-vacuity, typed-map mode: a pipeline mapped over the typed-map output of a stage (run-time key
+set) with a nested map call over a typed-map literal passes the checks … -/
+example : wellTypedRB exRunK = true ∧ wellTypedEB exRunK = false ∧ acyclicB exRunK.table = true ∧
+    treeOkPList [] (staticProgramT exRunK exNm).2 = true ∧
+    ((flattenTList [] (staticProgramT exRunK exNm).2).map fun n => exNm n.path).Nodup ∧
+    ((subROccList [] (staticProgramT exRunK exNm).2).map (·.1)).Nodup ∧
+    idxOkTList exRunK.table exRunK.nfuel exRunKStore [] (staticProgramT exRunK exNm).2 = true := by decide
+
+/-- … 1 + 2·(1 + 2 + 1) instances; the outputs are typed maps over the recorded keys; the nested
+instance (b, p) receives the split value of ITS outer fork -/
+example :
+    (twoPhaseT exRunK exNm exRunKStore).2.length = 9 ∧
+    (twoPhaseT exRunK exNm exRunKStore).1.matches
+      (.obj [("ys", .obj [("a", .atom "\"ya\""), ("b", .atom "\"yb\"")]),
+             ("rs", .obj [("a", .atom "\"ra\""), ("b", .atom "\"rb\"")])]) = true ∧
+    ((twoPhaseT exRunK exNm exRunKStore).2.find? fun i =>
+        i.key == ⟨["TOP", "INNER", "W2"], [("INNER", .k "b"), ("W2", .k "p")]⟩).map
+      (fun i => i.args.matches (.obj [("x", .atom "6"), ("k", .atom "\"yb\"")])) = some true := by decide
 
 /-- the fragment of the statically sized theorems is inside this one: a call graph without run-time
 sized calls needs nothing about index sets -/
@@ -897,7 +927,7 @@ theorem runtime_fragment_extends_static (st : StructTable) (nf : Nat) (ρ : Stor
 
 /-- non-vacuity: a pipeline mapped over the array output of a stage, with a nested map call over an
 array output of a stage of its own fork, passes the checks for the recorded index sets … -/
-example : wellTypedEB exRun = true ∧ acyclicB exRun.table = true ∧
+example : wellTypedRB exRun = true ∧ acyclicB exRun.table = true ∧
     treeOkPList [] (staticProgramT exRun exNm).2 = true ∧
     treeOkList [] (staticProgramT exRun exNm).2 = false ∧
     ((flattenTList [] (staticProgramT exRun exNm).2).map fun n => exNm n.path).Nodup ∧
